@@ -147,7 +147,7 @@ inline void rewriteArgs(int* argc, char*** argv) {
     }
     static std::vector<std::string> store;
     static std::vector<char*> ptrs;
-    store = {(*argv)[0], "-artifact_prefix=/nonexistent-verif-dir/", "-timeout=600", raw};
+    store = {(*argv)[0], "-exact_artifact_path=/dev/null", "-timeout=600", raw};
     ptrs.clear();
     for (auto& s : store) ptrs.push_back(const_cast<char*>(s.c_str()));
     ptrs.push_back(nullptr);
